@@ -520,3 +520,127 @@ Section Lockstep.
       intros u Hu. rewrite G8 by exact Hu. apply HAd'. lia.
   Qed.
 End Lockstep.
+
+(* ------------------------------------------------------------------ *)
+(** * 7. What mapping_to_items can observe *)
+
+(* a key of the additional dict that maps to [] is indistinguishable from an absent key, and only
+   the keys of the line dict are ever looked up *)
+Lemma m2i_lnotab_cong adds adds' : forall lines,
+  (forall u, In u (okeys lines) -> addl adds' u = addl adds u) ->
+  forall ll lb, mapping_to_items_lnotab lines adds' ll lb = mapping_to_items_lnotab lines adds ll lb.
+Proof.
+  induction lines as [|[bo [line|]] r IH]; intros H ll lb; [reflexivity| |reflexivity].
+  cbn [mapping_to_items_lnotab].
+  fold (addl adds' bo). fold (addl adds bo).
+  rewrite (H bo) by (cbn [okeys map fst In]; now left).
+  rewrite IH; [reflexivity|].
+  intros u Hu. apply H. cbn [okeys map fst In]. right. exact Hu.
+Qed.
+
+Lemma from_lm_cong lt m m' :
+  lm_lines m' = lm_lines m ->
+  (forall u, In u (okeys (lm_lines m)) -> addl (lm_adds m') u = addl (lm_adds m) u) ->
+  from_line_mapping lt m' = from_line_mapping lt m.
+Proof.
+  intros HL HA. unfold from_line_mapping, mapping_to_items. rewrite HL.
+  destruct lt; [reflexivity|]. rewrite (m2i_lnotab_cong _ _ _ HA). reflexivity.
+Qed.
+
+Lemma modify_cancel (F : odict (option Z)) d :
+  map (fun kv : Z * option Z =>
+         (fst kv, match snd kv with Some l => Some (l + - d) | None => None end))
+      (map (fun kv : Z * option Z =>
+              (fst kv, match snd kv with Some l => Some (l + d) | None => None end)) F) = F.
+Proof.
+  induction F as [|[k [l|]] F IH]; [reflexivity| |]; cbn [map fst snd]; rewrite IH;
+    [|reflexivity]. do 3 f_equal. lia.
+Qed.
+
+Lemma okeys_modify lm d : okeys (lm_lines (modify_line_offsets lm d)) = okeys (lm_lines lm).
+Proof.
+  unfold modify_line_offsets, okeys. cbn [lm_lines]. rewrite map_map. cbn [fst]. reflexivity.
+Qed.
+
+(* what pop_additional_line returns when the residual keys are consecutive even offsets from e *)
+Lemma pop_char lm1 e k' next_line lm2 :
+  okeys (lm_lines lm1) = evens k' e ->
+  pop_additional_line lm1 e = OK (next_line, lm2) ->
+  (lm_lines lm1 = [] /\ next_line = None) \/
+  (exists v, lm_lines lm1 = [(e, v)] /\ next_line = Some (v, addl (lm_adds lm1) e)).
+Proof.
+  intros HK H. unfold pop_additional_line in H.
+  destruct (negb _); [discriminate|].
+  destruct (lm_lines lm1) as [|[k0 v0] L] eqn:EL.
+  - left. inversion H. split; reflexivity.
+  - right. destruct k' as [|k']; [discriminate HK|].
+    cbn [okeys map fst range2_fuel] in HK. inversion HK as [[E1 E2]]. subst k0.
+    destruct (keys_are_exactly ((e, v0) :: L) e) eqn:EK; [|discriminate].
+    unfold keys_are_exactly in EK. cbn [okeys map fst forallb] in EK.
+    apply andb_true_iff in EK as [_ EK].
+    destruct L as [|[k1 v1] L].
+    + cbn [oget] in H. rewrite Z.eqb_refl in H. inversion H. exists v0. split; reflexivity.
+    + exfalso. destruct k' as [|k']; [discriminate E2|].
+      cbn [map fst range2_fuel] in E2. inversion E2 as [[E3 E4]]. subst k1.
+      cbn [map fst forallb] in EK. apply andb_true_iff in EK as [EK _]. lia.
+Qed.
+
+(* ------------------------------------------------------------------ *)
+(** * 8. The line mapping round trip *)
+
+Theorem K3_lines : S_K3_lines.
+Proof.
+  intros C keq c b table first lm0 ps fv st ois lm1 st' next_line lm2 instrs vals code lm3
+         Hc HT HP Hne HM HLI HD HPOP H1 H2 HL HA.
+  destruct (InstrCodec.emit_parse_bytes c b ps (code_ok_wf c b Hc) HP) as [_ HO].
+  destruct (lm0_char c table (zlen b) lm0 HT HM) as [[k0 HK0] HF].
+  rewrite <- HF. clear HF.
+  set (e := zlen b) in *.
+  set (F' := lm_lines (modify_line_offsets lm0 first)).
+  assert (HK : okeys F' = evens k0 0) by (unfold F'; rewrite okeys_modify; exact HK0).
+  change (modify_line_offsets lm0 first)
+    with {| lm_lines := F'; lm_adds := lm_adds lm0 |} in HD.
+  change empty_linemap with {| lm_lines := []; lm_adds := [] |} in HA.
+  destruct (lockstep keq c fv ps 0 e instrs vals ois F' (lm_adds lm0) st lm1 st' [] [] code lm3 k0
+              HO HK (lines_on_instrs_cons lm0 first ps HLI) HD H1 H2 HL
+              (Forall_nil _) (fun _ _ => eq_refl) HA)
+    as (G1 & G2 & G3 & [k' G4] & G5 & G6 & G7 & G8).
+  cbn [app] in G2. rewrite Z.sub_0_r in G1.
+  assert (HF' : map (fun kv : Z * option Z =>
+                       (fst kv, match snd kv with Some l => Some (l + - first) | None => None end)) F'
+                = lm_lines lm0).
+  { unfold F', modify_line_offsets. cbn [lm_lines]. apply modify_cancel. }
+  assert (Hlow : forall u, In u (okeys (lm_lines lm3)) -> u < e).
+  { intros u Hu. apply in_map_iff in Hu as [[k1 v1] [E Hin]]. cbn [fst] in E. subst k1.
+    rewrite Forall_forall in G3. exact (G3 _ Hin). }
+  assert (Hev : forall u, In u (okeys (lm_lines lm0)) -> 0 <= u /\ (u - 0) mod 2 = 0).
+  { intros u Hu. rewrite HK0 in Hu. apply DecodeView.In_range2_fuel_lt in Hu. lia. }
+  destruct (pop_char lm1 e k' next_line lm2 G4 HPOP) as [[EL ->] | [v [EL ->]]].
+  - rewrite EL, app_nil_r in G2.
+    apply from_lm_cong.
+    + unfold modify_line_offsets. cbn [lm_lines]. rewrite <- G2. exact HF'.
+    + intros u Hu. unfold modify_line_offsets. cbn [lm_adds].
+      destruct (Hev u Hu) as [U1 U2].
+      apply G6; [|exact U2]. split; [lia|]. apply Hlow.
+      rewrite <- G2. unfold F'. rewrite okeys_modify. exact Hu.
+  - rewrite EL in G2. rewrite G1.
+    assert (ES : oset (lm_lines lm3) e v = F').
+    { rewrite (LT_Lnotab.oset_fresh (lm_lines lm3) e v G3). symmetry. exact G2. }
+    apply from_lm_cong.
+    + unfold modify_line_offsets, add_additional_line. cbn [lm_lines]. rewrite ES. exact HF'.
+    + intros u Hu. unfold modify_line_offsets, add_additional_line. cbn [lm_adds lm_lines].
+      destruct (Hev u Hu) as [U1 U2].
+      assert (Hu' : In u (okeys (lm_lines lm3)) \/ u = e).
+      { rewrite <- okeys_modify with (d := first) in Hu. fold F' in Hu. rewrite G2 in Hu.
+        rewrite okeys_app in Hu. apply in_app_iff in Hu as [Hu|Hu]; [now left|].
+        cbn [okeys map fst In] in Hu. right. destruct Hu as [Hu|[]]. now symmetry. }
+      destruct Hu' as [Hu'| ->].
+      * apply Hlow in Hu'. unfold addl at 1.
+        rewrite LT_Lnotab.oget_oset_other by lia. fold (addl (lm_adds lm3) u).
+        apply G6; [lia | exact U2].
+      * unfold addl at 1. rewrite LT_Lnotab.oget_oset_same.
+        unfold addl. rewrite G8 by lia. reflexivity.
+Qed.
+
+Print Assumptions K3_bytes.
+Print Assumptions K3_lines.
